@@ -150,7 +150,8 @@ class Case:
                 # val_ prefix for validation
                 def user_metric(y_true, y_pred):
                     return [("error_rate", np.float64((y_true != y_pred).sum() / len(y_true)))]
-                evaluator = Evaluator(mode=mode, epoch_callback=user_metric, step_callback=user_metric)
+                evaluator = Evaluator(mode=mode, epoch_callback=user_metric, step_callback=user_metric,
+                                      **({"accuracy": False} if sp.get("no_accuracy") else {}))
             else:
                 evaluator = Evaluator(mode=mode)
             orig_ev = evaluator.step
@@ -225,7 +226,8 @@ class Case:
                  all((not any(e[2])) and (not e[3]) for e in val_losses))
         out.fact("validation losses carry no autograd history", all(not e[1].requires_grad for e in val_losses))
         # ---- history
-        metric_names = (["accuracy"] if mode else []) + (["error_rate"] if mode and sp.get("metric_callbacks") else [])
+        # (Evaluator(accuracy=False): the built-in metric is switched off, only the callbacks' metrics remain)
+        metric_names = (["accuracy"] if mode and not sp.get("no_accuracy") else []) + (["error_rate"] if mode and sp.get("metric_callbacks") else [])
         keys = {"loss"} | set(metric_names)
         if sp["val"]:
             keys |= {"val_loss"} | {"val_" + m_ for m_ in metric_names}
@@ -284,11 +286,14 @@ class Case:
                 out.fact("the step callback's metric is reported under its name%s" % (" with the val_ prefix" if prefix else ""),
                          eg is not None and abs(float(eg) - (1 - acc)) < 1e-9, "metrics %s" % ([k_ for k_, _ in r],))
             got = dict(r).get(name)
+            if sp.get("no_accuracy"):
+                out.fact("no accuracy metric is reported when it is switched off", got is None, "metrics %s" % ([k_ for k_, _ in r],))
+                continue
             out.fact("step accuracy is the fraction of correct predictions (%s)" % mode, got is not None and abs(float(got) - acc) < 1e-9,
                      "reported %s, fraction of matches %s" % (got, acc))
         # ---- the per-epoch metric values in the history: the fraction correct over all samples the epoch saw (training and
         #      validation kept apart, nothing carried over from an earlier epoch)
-        if mode is not None and sp["epochs"] > 0 and len(tallies) == sp["epochs"] * (nb + nvb):
+        if mode is not None and not sp.get("no_accuracy") and sp["epochs"] > 0 and len(tallies) == sp["epochs"] * (nb + nvb):
             per = nb + nvb
             for ep in range(sp["epochs"]):
                 chunk = tallies[ep * per:(ep + 1) * per]
@@ -418,6 +423,8 @@ def enumerate_specs(tier):
         specs.append({"epochs": 1, "batches": 2, "val": True, "evaluator": mode, "grad_on_entry": True, "test": False, "bs": 1})
         specs.append({"epochs": 2 if tier != "quick" else 1, "batches": 2, "val": True, "evaluator": mode, "grad_on_entry": True,
                       "test": False, "val_batches": 2})
+    specs.append({"epochs": 1, "batches": 1, "val": True, "evaluator": "binary", "grad_on_entry": True, "test": False,
+                  "metric_callbacks": True, "no_accuracy": True})
     for mode, val in (("binary", True), ("multi-class", False)) + ((("categorical", True),) if tier != "quick" else ()):
         specs.append({"epochs": 1 if val else 2, "batches": 1, "val": val, "evaluator": mode, "grad_on_entry": True, "test": False,
                       "metric_callbacks": True})
